@@ -293,6 +293,82 @@ def dir_lookalike(rng):
     return files, None, [(1, "meta", 0), (3, "meta", 2), (3, "up", 0)]
 
 
+def anchor_case(rng):
+    """two documents that declare the same plain-name anchor ($id "#name") on different subschemas; each document refers to its own
+    anchor, one of them only after the other document has been loaded"""
+    obj = lambda i, extra=None: {"type": "object", "properties": {f"m{i}": {"type": "integer"}, **(extra or {})}}
+    anchor = rng.choice(["address", "item", "x"])
+    first, second = rng.choice([("a", "b"), ("order", "customer"), ("z", "a")])
+    files = {
+        f"{first}.json": {"title": "First", **obj(0, {"other": {"$ref": f"{second}.json"}, "lines": {"type": "array", "items": {"$ref": "#/definitions/line"}}}),
+                          "definitions": {"target_one": {"$id": f"#{anchor}", **obj(1)}, "line": obj(2, {"w": {"$ref": f"#{anchor}"}})}},
+        f"{second}.json": {"title": "Second", **obj(3, {"contact": {"$ref": f"#{anchor}"}}),
+                           "definitions": {"target_two": {"$id": f"#{anchor}", **obj(4)}}},
+    }
+    return files, rng.choice([f"{first}.json", None]), [(0, "other", 3), (2, "w", 1), (3, "contact", 4)]
+
+
+def check_pointer_tree(files, expect, opts):
+    """directory input; expect: (file stem, class name, member, fingerprint) - the member's annotation must reach a definition whose
+    source text carries the fingerprint (a constraint value only the referenced subschema has)"""
+    lib.WORK.mkdir(exist_ok=True)
+    d = Path(tempfile.mkdtemp(prefix="c06", dir=lib.WORK))
+    try:
+        for rel, doc in files.items():
+            p = d / rel
+            p.parent.mkdir(parents=True, exist_ok=True)
+            p.write_text(json.dumps(doc))
+        g = e2e.generate(d, modular=True, **opts)
+        if g.timeout:
+            return "generate() does not terminate"
+        if not g.ok:
+            return f"generation fails on a well-formed document set: {g.error}"
+        from harness.props import c12
+        for stem, cname, member, fingerprint in expect:
+            fname = stem + ".py"
+            text = g.files.get(fname)
+            if text is None or e2e.parses(text):
+                return f"{fname} missing or unparsable"
+            cls = next((n for n in ast.parse(text).body if isinstance(n, ast.ClassDef) and n.name == cname), None)
+            ann = next((st.annotation for st in (cls.body if cls else []) if isinstance(st, ast.AnnAssign) and isinstance(st.target, ast.Name) and st.target.id == member), None)
+            if ann is None:
+                return f"{fname}: {cname}.{member} not found"
+            if isinstance(ann, ast.Constant) and isinstance(ann.value, str):
+                ann = ast.parse(ann.value, mode="eval").body
+            if fingerprint in ast.unparse(ann):
+                continue  # written inline
+            cands = [x for x in ast.walk(ann) if isinstance(x, ast.Attribute) or (isinstance(x, ast.Name) and x.id not in c12.TYPING)]
+            attr_values = {id(x.value) for x in cands if isinstance(x, ast.Attribute)}
+            ok = False
+            for x in [x for x in cands if id(x) not in attr_values]:
+                r = c12.resolve_name(g.files, fname, x)
+                if r:
+                    tree = ast.parse(g.files[r[0]])
+                    for n in tree.body:
+                        name = n.name if isinstance(n, ast.ClassDef) else (n.targets[0].id if isinstance(n, ast.Assign) and isinstance(n.targets[0], ast.Name) else
+                                                                              n.target.id if isinstance(n, ast.AnnAssign) and isinstance(n.target, ast.Name) else None)
+                        if name == r[1] and fingerprint in ast.unparse(n):
+                            ok = True
+            if not ok:
+                return f"{fname}: {cname}.{member} is written {ast.unparse(ann)}, which does not reach the subschema with {fingerprint}"
+        return None
+    finally:
+        shutil.rmtree(d, ignore_errors=True)
+
+
+def pointer_case(rng):
+    """directory input: a later file points into a part of an earlier file that is no definition (a constrained scalar under
+    properties); the last file of the set has something else at the same pointer"""
+    user, early, last = rng.choice([("invoice", "account", "product"), ("m", "a", "z"), ("b", "a", "c")])
+    files = {
+        f"{early}.json": {"title": "Early", "type": "object", "properties": {"code": {"type": "string", "maxLength": 81}, "n": {"type": "integer"}}},
+        f"{user}.json": {"title": "User", "type": "object", "properties": {"acc": {"$ref": f"{early}.json#/properties/code"},
+                                                                             "own": {"$ref": "#/properties/local"}, "local": {"type": "string", "minLength": 83}}},
+        f"{last}.json": {"title": "Last", "type": "object", "properties": {"code": {"type": "integer", "minimum": 82}, "local": {"type": "integer", "maximum": 84}}},
+    }
+    return files, [(user, "User", "acc", "81"), (user, "User", "own", "83")]
+
+
 def falsify(ctx):
     rng = ctx.rng("fals")
     seen = 0
@@ -338,7 +414,7 @@ def falsify(ctx):
                         ctx.violation(f"shared:{json.dumps([names, pat, container, use_first])}", f"{names} content {pat} in {container}: {why}",
                                       {"shared": [names, list(pat), container, use_first], "why": why})
     for _ in range(ctx.n(6, 40)):
-        for maker in (tree_case, multi_file_collision, dir_lookalike):
+        for maker in (tree_case, multi_file_collision, dir_lookalike, anchor_case):
             files, entry, expect = maker(rng)
             ctx.count("eval_e2e")
             ctx.nontrivial(json.dumps(sorted(files)))
@@ -348,6 +424,16 @@ def falsify(ctx):
                 if seen <= 8:
                     ctx.violation(f"tree:{maker.__name__}:{json.dumps(files, sort_keys=True)[:200]}", f"{maker.__name__}: {why}",
                                   {"tree": [files, entry, expect], "why": why})
+    for _ in range(ctx.n(4, 30)):
+        files, expect = pointer_case(rng)
+        for opts in ({}, {"field_constraints": True}):
+            ctx.count("eval_e2e")
+            ctx.nontrivial("pointer:" + json.dumps(sorted(files)) + json.dumps(opts))
+            why = check_pointer_tree(files, expect, opts)
+            if why:
+                seen += 1
+                if seen <= 8:
+                    ctx.violation(f"pointer:{json.dumps(sorted(files))}:{sorted(opts)}", f"pointer_case {sorted(files)} {opts}: {why}", {"pointer": [files, expect, opts], "why": why})
     ctx.sample({"names": combos[0]})
 
 
@@ -360,6 +446,9 @@ def replay_finding(ctx, f):
     r = f["replay"]
     if "shared" in r:
         return _shared(r) is not None
+    if "pointer" in r:
+        a = r["pointer"]
+        return check_pointer_tree(a[0], [tuple(x) for x in a[1]], a[2]) is not None
     if "single" in r:
         a = r["single"]
         return check_single([tuple(x) for x in a[0]], [tuple(x) for x in a[1]], a[2], a[3]) is not None
@@ -371,6 +460,9 @@ def replay(ctx, payload):
     r = payload.get("replay", payload)
     if "shared" in r:
         why = _shared(r)
+    elif "pointer" in r:
+        a = r["pointer"]
+        why = check_pointer_tree(a[0], [tuple(x) for x in a[1]], a[2])
     elif "single" in r:
         a = r["single"]
         why = check_single([tuple(x) for x in a[0]], [tuple(x) for x in a[1]], a[2], a[3])
